@@ -910,7 +910,7 @@ class DynamicVector : public DynamicVectorBaseTypeDispatcher<T, Alloc, SizeType,
       ElemStorage<T> e;
       amc::construct_at(e.ptr(), std::forward<Args &&>(args)...);
       SizeType idx = static_cast<SizeType>(position - this->begin());
-      this->grow(this->size() + 1U);
+      growOrDestroy(e.ptr());
       pos = this->begin() + idx;
       if (nElemsToShift == 0) {
         amc::relocate_at(e.ptr(), pos);
@@ -938,7 +938,7 @@ class DynamicVector : public DynamicVectorBaseTypeDispatcher<T, Alloc, SizeType,
       // construct before possible iterator invalidation from grow in constructor arguments
       ElemStorage<T> e;
       amc::construct_at(e.ptr(), std::forward<Args &&>(args)...);
-      this->grow(this->size() + 1U);
+      growOrDestroy(e.ptr());
       endIt = this->dynStorage() + this->size();
       amc::relocate_at(e.ptr(), endIt);
     } else {
@@ -976,6 +976,16 @@ class DynamicVector : public DynamicVectorBaseTypeDispatcher<T, Alloc, SizeType,
       swap_deep(this->begin(), this->size(), o.begin(), o.size());
     }
     swap_sizetype(this->msize(), o.msize());
+  }
+
+  /// Grow for one more element. If growing fails, destroy the already constructed new element before rethrowing.
+  void growOrDestroy(T *newElem) {
+    try {
+      this->grow(static_cast<uintmax_t>(this->size()) + 1U);
+    } catch (...) {
+      amc::destroy_at(newElem);
+      throw;
+    }
   }
 
   // Adjust capacity methods take uintmax_t as parameter to check for size_type overflow
